@@ -6,7 +6,7 @@ import RModel.Lemmas.Signals
   The model (`Model/Signals.lean`): a run is the command's program with signal events inserted anywhere; what
   an event does is the *generated* description of the handler bodies (`Gen/SignalHandlers.lean`).
 
-  * `handlers_only_set_flag`, `flag_checked_after_command`, `prompt_guard_facts`: the facts extracted from
+  * `handlers_only_set_flag`, `signal_context_handlers_async_signal_safe`, `flag_checked_after_command`, `prompt_guard_facts`: the facts extracted from
     main.rs / interrupt.rs / lock.rs on every run (a `process::exit` added to a handler, a dropped flag check, a flag
     test moved back in front of the result, a changed exit code, a prompt exit that no longer releases the held
     locks, or a second user of the prompt guard breaks one of them by name).
@@ -42,6 +42,14 @@ theorem handlers_only_set_flag :
     Gen.SignalHandlers.releaseChecksOwnership = true := by
   refine ⟨?_, by decide, by decide, by decide, by decide, by decide, by decide⟩
   intro s; cases s <;> decide
+
+/-- The SIGTERM handler is registered with `signal_hook::low_level::register` and therefore runs in real signal context,
+    possibly inside the interrupted thread's own `eprintln!`: its body consists of async-signal-safe operations only
+    (an atomic store).  Printing there panicked on the borrowed stderr handle and aborted the process (status -6,
+    lock left behind) until 4ef3457.  The SIGINT handler runs on ctrlc's own thread and may print and exit. -/
+theorem signal_context_handlers_async_signal_safe :
+    Gen.SignalHandlers.signalContextHandlers = 1 ∧ Gen.SignalHandlers.signalContextUnsafeCalls = 0 ∧
+    Gen.SignalHandlers.signalContextHandlersStoreFlag = true := by decide
 
 /-- The flag is read after the command returned and tested only in the `Ok` arm of the result match; the code is
     130; the command's own failure codes are 1, 2, 3. -/
